@@ -78,55 +78,39 @@ def run(chk):
 
     # ------------------------------------------------------------------ R06.2
     dm = chk.repo.cls(*DAILY_MODEL)
+    # The daily assembly (_initialize_data + _predict) is interpreted from the AST on an abstract frame (rules/daily_predict.py):
+    # row-set expressions say which input rows each returned part holds; the obligations below are read from that description.
+    from rules.daily_predict import initialize_outcomes, judge_initialize, judge_predict, predict_outcomes
+    done = set()
     for c in (dm, chk.repo.cls(*BILLING_MODEL), chk.repo.cls(*WEIGHTED_MODEL)):
         f = method(chk, c, "_predict")
-        key0 = f.key
-        if any(k.startswith(key0 + "|") for k in r2.instances):
+        if f.key in done:
             continue
-        cfg = CFG(f.node)
-        rd = ReachingDefs(f.node, cfg)
-        init = [s for s in cfg.stmts() if isinstance(s, ast.Assign) and isinstance(s.value, ast.Call) and unparse(s.value.func) == "self._initialize_data" and isinstance(s.targets[0], ast.Tuple)]
-        if not init:
-            raise AnalysisError(f"{f.key}: `kept, dropped = self._initialize_data(...)` anchor is gone")
-        kept, dropped = (unparse(x) for x in init[0].targets[0].elts)
-        for rt in [s for s in cfg.stmts() if isinstance(s, ast.Return)]:
-            v = rt.value
-            sorted_last = isinstance(v, ast.Call) and isinstance(v.func, ast.Attribute) and v.func.attr == "sort_index" and not v.args \
-                and (isinstance(v.func.value, ast.Name) or (isinstance(v.func.value, ast.Call) and unparse(v.func.value.func) == "pd.concat"))
-            r2.require(sorted_last, f"{key0}|sort_index-last", f.where(rt), f"{f.qualname} must return `<concat>.sort_index()` (chronological order)")
-            sl = backward_slice_exprs(rd, rt, v, 3)
-            concat = [n for e in sl for n in ast.walk(e) if isinstance(n, ast.Call) and unparse(n.func) == "pd.concat"]
-            ok = any(c2.args and isinstance(c2.args[0], (ast.List, ast.Tuple)) and [unparse(x) for x in c2.args[0].elts] == [kept, dropped] and kwarg(c2, "axis") in (None,) or
-                     (c2.args and isinstance(c2.args[0], (ast.List, ast.Tuple)) and sorted(unparse(x) for x in c2.args[0].elts) == sorted([kept, dropped]) and (kwarg(c2, "axis") is None or unparse(kwarg(c2, "axis")) == "0"))
-                     for c2 in concat)
-            if ok and isinstance(v, ast.Call) and isinstance(v.func.value, ast.Name):
-                # the sorted name must be bound by the concat itself (no filtering in between)
-                ok = all(isinstance(rd.value_of(d), ast.Call) and unparse(rd.value_of(d).func) == "pd.concat" for d in rd.reaching(rt, v.func.value.id))
-            r2.require(ok, f"{key0}|concat(kept, dropped)", f.where(rt), f"{f.qualname}: result must be the row-wise concat of exactly `{kept}` (with predictions) and `{dropped}`")
-        # between the split and the return: kept only re-bound by a left join; dropped only by copy / masking stores
-        for s in cfg.stmts():
-            if isinstance(s, ast.Assign) and len(s.targets) == 1 and isinstance(s.targets[0], ast.Name) and s.targets[0].id in (kept, dropped) and s is not init[0]:
-                v = s.value
-                if s.targets[0].id == kept:
-                    is_join = isinstance(v, ast.Call) and isinstance(v.func, ast.Attribute) and v.func.attr == "join" and unparse(v.func.value) == kept and (kwarg(v, "how") is None or const_str(kwarg(v, "how")) == "left")
-                    is_series = isinstance(v, ast.Call) and isinstance(v.func, ast.Attribute) and v.func.attr == "to_frame"
-                    is_concat = isinstance(v, ast.Call) and unparse(v.func) == "pd.concat"
-                    r2.require(is_join or is_series or is_concat, f"{key0}|kept-rebinding:{unparse(v)[:40]}", f.where(s), f"{f.qualname}: `{unparse(s)[:80]}` may change the set of kept rows (only a left join of the predictions is allowed)")
-                else:
-                    ok = isinstance(v, ast.Call) and isinstance(v.func, ast.Attribute) and v.func.attr == "copy"
-                    r2.require(ok, f"{key0}|dropped-rebinding:{unparse(v)[:40]}", f.where(s), f"{f.qualname}: `{unparse(s)[:80]}` may change the set of dropped rows")
-        # predictions are indexed by the segment's own index
-        ok = any(isinstance(k, ast.keyword) and k.arg == "index" and unparse(k.value) == "eval_segment.index" for c2 in calls_in(f.node) if unparse(c2.func) == "pd.DataFrame" for k in c2.keywords)
-        r2.require(ok, f"{key0}|prediction-index=segment-index", f.where(), f"{f.qualname}: the per-segment prediction frame must be indexed by the segment's own index")
-    # _initialize_data: complement + no row-changing ops other than the filters
-    idf = method(chk, dm, "_initialize_data")
-    txt = unparse(idf.node)
-    r2.require("dropped_rows.loc[~dropped_rows.index.isin(meter_data.index)]" in txt and "dropped_rows = meter_data.copy()" in txt, f"{idf.key}|complement", idf.where(),
-               "_initialize_data: dropped rows must be `all.loc[~all.index.isin(kept.index)]` of a copy taken before filtering")
-    r2.require("meter_data = meter_data.sort_index()" in txt, f"{idf.key}|sorted", idf.where(), "_initialize_data must sort the frame by its index")
-    bad = [unparse(c)[:50] for c in calls_in(idf.node) if isinstance(c.func, ast.Attribute) and c.func.attr in ("drop_duplicates", "resample", "groupby", "head", "tail", "asfreq")]
-    r2.require(not bad, f"{idf.key}|no-row-changers", idf.where(), f"_initialize_data applies row-changing operations {bad}")
-    # billing: unaggregated path returns _predict's frame unchanged
+        done.add(f.key)
+        outs = predict_outcomes(chk, f.cls or c, f)
+        msgs = set()
+        for o in outs:
+            for ob, msg in judge_predict(o):
+                if ob != "rows" or msg[:90] in msgs:
+                    continue
+                msgs.add(msg[:90])
+                r2.require(False, f"{f.key}|result=sorted-concat(kept-left-joined-with-predictions, complement)", f.where(), f"{f.qualname}: {msg}",
+                           sample={"function": f.qualname, "scenario": {k_: o[k_] for k_ in ("with_observed", "mask_on", "decisions")}})
+        for nm in ("result=sorted-concat(kept-left-joined-with-predictions, complement)", "prediction-index=segment-index", "left-join", "every-stored-key-once", "sort_index-last"):
+            r2.inst(f"{f.key}|{nm}")
+        r2.inst(f"{f.key}|scenarios={len(outs)}")
+        idf = method(chk, f.cls or c, "_initialize_data")
+        if idf.key not in done:
+            done.add(idf.key)
+            msgs = set()
+            for o in initialize_outcomes(chk, idf.cls or c, idf):
+                for ob, msg in judge_initialize(o):
+                    if ob != "rows" or msg[:90] in msgs:
+                        continue
+                    msgs.add(msg[:90])
+                    r2.require(False, f"{idf.key}|complement", idf.where(), f"{idf.qualname}: {msg}")
+            r2.inst(f"{idf.key}|complement")
+            r2.inst(f"{idf.key}|sorted")
     from rules.billing_agg import billing_outcomes
     for mc in (BILLING_MODEL, WEIGHTED_MODEL):
         c = chk.repo.cls(*mc)
